@@ -247,18 +247,23 @@ def run(tier, seed, replay=None):
     # After every successful step the outputs must be exactly what a fresh generation of the current source with the current
     # options writes into an empty directory (same binary), and an output whose bytes did not change keeps inode and mtime.
     STEPS = ("regenerate", "touch", "edit-constant", "edit-dynamic", "edit-callback", "introduce-error", "delete-header", "delete-ui",
-             "toggle-no-dynamic", "make-static", "make-dynamic", "chmod-outputs", "chmod-source")
+             "toggle-no-dynamic", "make-static", "make-dynamic", "chmod-outputs", "chmod-source", "edit-dependency")
     n_hist = 8 if tier == "quick" else 80
     for k in range(n_hist):
         opts_o = rng.choice(([], [], ["-O", "out"]))
-        cur = {"title": "v0", "dyn": "a", "cb": "x", "static": False}
+        cur = {"title": "v0", "dyn": "a", "cb": "x", "static": False, "dep": "QSpinBox"}
 
         def text_of_cur():
             if cur["static"]:
                 return STATIC_QML % (cur["title"], cur["dyn"])
+            # the form also depends on a sibling component file (Gauge.qml) whose root class may change under it
             return ("import qmluic.QtWidgets\nQWidget {\n    windowTitle: \"%s\"\n    QCheckBox { id: chk; onToggled: console.log(\"%s\") }\n"
-                    "    QLabel { enabled: chk.checked; text: chk.checked ? \"%s\" : \"off\" }\n}\n" % (cur["title"], cur["cb"], cur["dyn"]))
-        w = make_project(base, "h%d" % k, {"Form.qml": text_of_cur()})
+                    "    Gauge { id: level }\n    QLabel { enabled: chk.checked; text: chk.checked ? \"%s\" : \"off\"; visible: level.value >= level.value }\n}\n"
+                    % (cur["title"], cur["cb"], cur["dyn"]))
+
+        def gauge():
+            return "import qmluic.QtWidgets\n%s {}\n" % cur["dep"]
+        w = make_project(base, "h%d" % k, {"Form.qml": text_of_cur(), "Gauge.qml": gauge()})
         outdir = os.path.join(w, opts_o[1]) if opts_o else w
         outs = ["form.ui", "uisupport_form.h"]
         nodyn = False
@@ -281,6 +286,9 @@ def run(tier, seed, replay=None):
                 cur["static"] = False
             elif kind == "toggle-no-dynamic":
                 nodyn = not nodyn
+            elif kind == "edit-dependency":
+                cur["dep"] = "QDoubleSpinBox" if cur["dep"] == "QSpinBox" else "QSpinBox"
+                open(os.path.join(w, "Gauge.qml"), "w").write(gauge())      # the source itself is not touched
             elif kind == "chmod-outputs":
                 # the build tree was made read-only / a checkout flipped a mode bit: the content is still up to date
                 for o in outs:
@@ -295,7 +303,7 @@ def run(tier, seed, replay=None):
             if kind == "introduce-error":
                 open(src, "w").write(ERROR_QML % "\"e\"")
                 broken = True
-            elif kind not in ("touch", "chmod-outputs", "chmod-source"):
+            elif kind not in ("touch", "chmod-outputs", "chmod-source", "edit-dependency"):
                 if not os.access(src, os.W_OK):
                     os.chmod(src, 0o644)
                 open(src, "w").write(text_of_cur())
@@ -318,7 +326,7 @@ def run(tier, seed, replay=None):
                 v.violation("valid-invocation-failed", "history step %s failed: %s" % (kind, p.stderr.decode()[-200:]), rp)
                 continue
             # reference: the same source and options in an empty directory
-            ref = make_project(base, "href%d" % k, {"Form.qml": open(src).read()})
+            ref = make_project(base, "href%d" % k, {"Form.qml": open(src).read(), "Gauge.qml": gauge()})
             subprocess.run(cli_args(opts + ["Form.qml"]), cwd=ref, capture_output=True, env=ENV, timeout=120)
             n_inv += 1
             refdir = os.path.join(ref, opts_o[1]) if opts_o else ref
@@ -337,7 +345,7 @@ def run(tier, seed, replay=None):
                     v.violation("unchanged-output-rewritten", "%s has the same bytes but a new inode/mtime after %s" % (o, kind), rp)
 
     # ------------------------------------------------------------------ crash points and I/O faults (enumerated)
-    n_proj = 2 if tier == "quick" else 40
+    n_proj = 4 if tier == "quick" else 40
     crash_points = errors_injected = 0
     if have_strace:
         jobs = []
@@ -345,11 +353,15 @@ def run(tier, seed, replay=None):
             opts = rng.choice(([], ["-O", "out"], ["-O", "deep/er"]))
             old_src = DYNAMIC_QML % ("old%d" % k, "o")
             new_src = DYNAMIC_QML % ("new%d" % k, "n" * rng.choice((1, 50, 5000)))
-            # reference contents
-            ref = make_project(base, "r%d" % k, {"Form.qml": old_src})
-            subprocess.run(cli_args(opts + ["Form.qml"]), cwd=ref, capture_output=True, env=ENV, timeout=120)
+            # reference contents; every second project is a FIRST generation (no old outputs: "old" is "absent")
+            first = (k % 2 == 1)
+            ref = make_project(base, "r%d" % k, {"Form.qml": new_src if first else old_src})
             outdir = os.path.join(ref, opts[1]) if opts else ref
-            old = {o: open(os.path.join(outdir, o), "rb").read() for o in ("form.ui", "uisupport_form.h")}
+            if first:
+                old = {o: None for o in ("form.ui", "uisupport_form.h")}
+            else:
+                subprocess.run(cli_args(opts + ["Form.qml"]), cwd=ref, capture_output=True, env=ENV, timeout=120)
+                old = {o: open(os.path.join(outdir, o), "rb").read() for o in ("form.ui", "uisupport_form.h")}
             open(os.path.join(ref, "Form.qml"), "w").write(new_src)
             st, err, events = run_traced(ref, opts + ["Form.qml"], log="dry.log")
             newc = {o: open(os.path.join(outdir, o), "rb").read() for o in ("form.ui", "uisupport_form.h")}
@@ -369,7 +381,8 @@ def run(tier, seed, replay=None):
         def one(job):
             k, opts, old_src, new_src, old, newc, inject, kind, desc, n = job
             w = make_project(base, "f%d" % n, {"Form.qml": old_src})
-            subprocess.run(cli_args(opts + ["Form.qml"]), cwd=w, capture_output=True, env=ENV, timeout=120)
+            if any(x is not None for x in old.values()):
+                subprocess.run(cli_args(opts + ["Form.qml"]), cwd=w, capture_output=True, env=ENV, timeout=120)
             open(os.path.join(w, "Form.qml"), "w").write(new_src)
             st, err, events = run_traced(w, opts + ["Form.qml"], inject=inject, log="inj.log")
             outdir = os.path.join(w, opts[1]) if opts else w
@@ -392,9 +405,11 @@ def run(tier, seed, replay=None):
                 else:
                     errors_injected += 1
                 shapes.add(("fault", kind, inject.split(":")[0], inject.split(":")[1]))
+                shapes.add(("fault-history", "first-generation" if old["form.ui"] is None else "regeneration"))
                 for o, content in state.items():
-                    if content is None or content not in (old[o], newc[o]):
-                        what = "missing" if content is None else "torn (%d bytes; old %d, new %d)" % (len(content), len(old[o]), len(newc[o]))
+                    if content != old[o] and content != newc[o]:
+                        what = "missing" if content is None else "torn (%d bytes; old %s, new %d)" % (
+                            len(content), "absent" if old[o] is None else len(old[o]), len(newc[o]))
                         v.violation("torn-output:" + kind, "after %s at %s the output %s is %s" % (inject, desc, o, what), rp)
                 if kind == "error" and st not in (1,):
                     # the injected call may not be reached any more if an earlier output was already up to date; status 0 is fine
